@@ -37,6 +37,18 @@ class ConcBase(Property):
     def shrink_tokens(self, case):
         return None
 
+    miri_programs = ["traverse"]
+
+    def extra_search(self, tier):
+        """free-running threads under Miri (its scheduler preempts anywhere, its race detector sees unordered accesses):
+        used only when the machine correspondence or a proof no longer checks"""
+        from .p_c07 import miri
+        for prog in self.miri_programs:
+            r = miri(prog, 0, 16 if tier == "quick" else 64)
+            if r != "ok":
+                return ("M %s 0 %d" % (prog, 16 if tier == "quick" else 64), "Miri on program `%s`: %s" % (prog, r), r)
+        return None
+
     def distribution(self, cases, impl_lines):
         races = sum(1 for l in impl_lines if "+2" in l.split(" || ")[0] or " +1 " in l.split(" || ")[0].replace(":+1", " +1 ") and False)
         lost = sum(1 for l in impl_lines if ":+2" in l)
@@ -73,6 +85,8 @@ class C05(ConcBase):
         return None
 
     def spec_raw(self, case, raw):
+        if case.startswith("M "):
+            return None if raw == "ok" else "Miri on program `%s`: %s" % (case.split(" ")[1], raw)
         return CR.check_c05(case, raw)
 
     def nontrivial(self, case, impl):
